@@ -55,6 +55,7 @@ func runSpecial(c *core.Ctx) []core.Obligation {
 		})
 	}
 	obs = append(obs, capRadiusArithmetic(c)...)
+	obs = append(obs, rawLongitudeLiterals(c)...)
 	return obs
 }
 
@@ -216,4 +217,58 @@ func guardedNonEmpty(fn *ssa.Function, owner ssa.Value, at *ssa.BasicBlock) bool
 		}
 	}
 	return false
+}
+
+
+// rawLongitudeLiterals (written after the sub-agent for C19 reported, on the unmodified tree, that
+// RectFromLatLng(LatLng{lat, -Pi}) is not a valid rectangle and does not contain its own point): a longitude interval
+// has ONE representation of the antimeridian, +Pi (s1.Interval.IsValid rejects Lo == -Pi unless the interval is full).
+// The constructors of package s1 normalise -Pi to +Pi; a composite literal s1.Interval{Lo: x, Hi: y} with values
+// that are not constants skips that step, so outside package s1 such literals are built from constants only.
+func rawLongitudeLiterals(c *core.Ctx) []core.Obligation {
+	var obs []core.Obligation
+	lits := 0
+	for _, fn := range c.GeoFuncs() {
+		if fn.Pkg == nil || fn.Pkg.Pkg.Name() == "s1" {
+			continue
+		}
+		n := 0
+		seen := map[ssa.Value]bool{}
+		core.AllInstrs(fn, func(in ssa.Instruction) {
+			st, ok := in.(*ssa.Store)
+			if !ok {
+				return
+			}
+			fr, ok := core.AsFieldAddr(st.Addr)
+			if !ok || (fr.Name != "Lo" && fr.Name != "Hi") || fr.Struct == nil || fr.Struct.Obj().Name() != "Interval" || fr.Struct.Obj().Pkg() == nil || fr.Struct.Obj().Pkg().Name() != "s1" {
+				return
+			}
+			// the interval being written is (part of) a composite literal
+			base := fr.Base
+			for i := 0; i < 4; i++ {
+				if fa, ok := base.(*ssa.FieldAddr); ok {
+					base = fa.X
+				}
+			}
+			al, ok := base.(*ssa.Alloc)
+			if !ok || al.Comment != "complit" {
+				return
+			}
+			if !seen[fr.Base] {
+				seen[fr.Base] = true
+				lits++
+			}
+			if _, isConst := st.Val.(*ssa.Const); isConst {
+				return
+			}
+			n++
+			if n > 1 {
+				return // one report per function
+			}
+			obs = append(obs, core.Ob("R-SPECIAL", "raw-longitude-literal:"+core.FuncName(fn), c.Pos(st.Pos()), core.FuncName(fn), core.Violated,
+				"a longitude interval is written as a literal s1.Interval{...} from a computed value: for the longitude -Pi the literal keeps -Pi where every s1 constructor stores +Pi, the interval is not valid (IsValid() false) and does not contain the very point it was built from; use s1.IntervalFromEndpoints / IntervalFromPointPair"))
+		})
+	}
+	obs = append(obs, core.Ob("R-SPECIAL", "raw-longitude-literal:scan", "-", "", core.Discharged, fmt.Sprintf("%d s1.Interval literals outside package s1 examined", lits)))
+	return obs
 }
